@@ -31,6 +31,18 @@ func (c C14Marsh) Marshal(conf *confmap.Conf) error {
 	return conf.Marshal(map[string]any{"s": c.S, "n": c.N, "m": c.M})
 }
 
+// the same, but its Marshal MERGES the raw values into the Conf without re-entering conf.Marshal: the opaque string and
+// the free-form section reach the encoder only when encodeStruct walks the map returned by the hook again
+type C14MarshMerge struct {
+	S configopaque.String
+	N int
+	M map[string]any
+}
+
+func (c C14MarshMerge) Marshal(conf *confmap.Conf) error {
+	return conf.Merge(confmap.NewFromStringMap(map[string]any{"s": c.S, "n": c.N, "m": c.M}))
+}
+
 // a struct taken by YamlMarshalerHookFunc: yaml tags, no mapstructure tags
 type C14Yaml struct {
 	S configopaque.String `yaml:"s"`
@@ -121,7 +133,7 @@ func (g *c14Gen) genType(depth int, keyPos bool) *c14Type {
 		if g.rnd.IntN(2) == 0 {
 			return &c14Type{k: 'Y'}
 		}
-		return &c14Type{k: 'H', elem: &c14Type{k: 'M', key: &c14Type{k: 'S'}, elem: &c14Type{k: 'I'}}}
+		return &c14Type{k: "HG"[g.rnd.IntN(2)], elem: &c14Type{k: 'M', key: &c14Type{k: 'S'}, elem: &c14Type{k: 'I'}}}
 	}
 	if !g.forFmt && g.rnd.IntN(7) == 0 {
 		// free-form containers: map[string]any / []any (raw configuration sections)
@@ -202,7 +214,7 @@ func (g *c14Gen) genVal(t *c14Type, depth int) *c14Val {
 		v.idx = g.rnd.IntN(g.nsec)
 		v.n = g.rnd.IntN(3)
 		v.s = []string{"", "a", "plain text", "[REDACTED]"}[g.rnd.IntN(4)]
-	case 'H':
+	case 'H', 'G':
 		v.idx = g.rnd.IntN(g.nsec)
 		v.n = g.rnd.IntN(3)
 		v.kids = []*c14Val{g.genVal(t.elem, depth+1)}
@@ -303,7 +315,7 @@ func (v *c14Val) tokens(b *strings.Builder) {
 		fmt.Fprintf(b, "%c2 f:%s:e:-:- O%d f:%s:e:-:- N%d ", v.k, c14Hex("s"), v.idx, c14Hex("n"), v.n)
 	case 'Y':
 		fmt.Fprintf(b, "Y3 f:%s:e:-:- O%d f:%s:e:-:- N%d f:%s:e:-:- S%s ", c14Hex("s"), v.idx, c14Hex("n"), v.n, c14Hex("p"), c14Hex(v.s))
-	case 'H':
+	case 'H', 'G': // both are the Lean node `sh marshaler` (G: the Marshal that merges raw values)
 		fmt.Fprintf(b, "H3 f:%s:e:-:- O%d f:%s:e:-:- N%d f:%s:e:-:- ", c14Hex("s"), v.idx, c14Hex("n"), v.n, c14Hex("m"))
 		v.kids[0].tokens(b)
 	case 'P', 'I':
@@ -359,6 +371,8 @@ func (t *c14Type) rtype(leaf reflect.Type) reflect.Type {
 		return reflect.TypeOf(C14Yaml{})
 	case 'H':
 		return reflect.TypeOf(C14Marsh{})
+	case 'G':
+		return reflect.TypeOf(C14MarshMerge{})
 	case 'V':
 		return reflect.TypeOf(C14TMV{})
 	case 'W':
@@ -415,7 +429,7 @@ func (v *c14Val) fill(dst reflect.Value, leaf reflect.Type, secrets []string, re
 		dst.Field(0).SetString(secrets[v.idx])
 		dst.Field(1).SetInt(int64(v.n))
 		dst.Field(2).SetString(v.s)
-	case 'H':
+	case 'H', 'G':
 		dst.Field(0).SetString(secrets[v.idx])
 		dst.Field(1).SetInt(int64(v.n))
 		v.kids[0].fill(dst.Field(2), leaf, secrets, reuse)
@@ -498,7 +512,7 @@ func (v *c14Val) fill(dst reflect.Value, leaf reflect.Type, secrets []string, re
 
 // hasOpaque reports whether an opaque leaf occurs in the value.
 func (v *c14Val) hasOpaque() bool {
-	if v.k == 'O' || v.k == 'V' || v.k == 'W' || v.k == 'Y' || v.k == 'H' {
+	if v.k == 'O' || v.k == 'V' || v.k == 'W' || v.k == 'Y' || v.k == 'H' || v.k == 'G' {
 		return true
 	}
 	for _, k := range v.kids {
